@@ -4,9 +4,9 @@ import NetVerif.Proofs.Lemmas.Bpf
 Helper lemmas for C48 (bpf Assemble / Disassemble are inverse on canonical forms):
 
 * L1 `canonTyped_disasm`      : whatever `Disassemble` returns is a canonical typed value
-* L2 `disasm_asm_of_canon`    : canonical typed value  ⇒ `disasm (asm i) = i`
+* L2 `disasm_asm_of_canon`    : canonical typed value  ⇒ `disasmCore (asm i) = i`
 * L3 `canonRaw_asm`           : canonical typed value  ⇒ its encoding is a canonical raw instruction
-* L4 `asm_disasm_of_canon`    : canonical raw instruction ⇒ `asm (disasm r) = r`
+* L4 `asm_disasm_of_canon`    : canonical raw instruction ⇒ `asm (disasmCore r) = r`
 
 Opcode fields are handled symbolically: the masks are rewritten to div/mod
 (`Lemmas/Bpf.lean`) and `omega` does the rest; no enumeration of opcodes.
@@ -68,8 +68,8 @@ theorem good_misc (r : Raw) : good r (disasmMisc r) := by
   simp only [disasmMisc]; repeat' split
   all_goals simp [good, canonTyped]
 
-theorem good_disasm (r : Raw) (hr : r.WF) : good r (disasm r) := by
-  simp only [disasm]
+theorem good_disasm (r : Raw) (hr : r.WF) : good r (disasmCore r) := by
+  simp only [disasmCore]
   repeat' split
   · exact good_load r hr
   · exact good_store ..
@@ -80,12 +80,12 @@ theorem good_disasm (r : Raw) (hr : r.WF) : good r (disasm r) := by
   · exact good_misc r
 
 /-- L1: whatever `Disassemble` returns is a canonical typed value. -/
-theorem canonTyped_disasm (r : Raw) (hr : r.WF) : canonTyped (disasm r) = true := by
+theorem canonTyped_disasm (r : Raw) (hr : r.WF) : canonTyped (disasmCore r) = true := by
   have h := good_disasm r hr
-  generalize hi : disasm r = i at h
+  generalize hi : disasmCore r = i at h
   cases i <;> simp only [good] at h <;> try exact h
   subst h
-  simp [canonTyped, hi, isRaw]
+  simp [canonTyped, disasm, hi, isRaw]
 
 
 theorem isALUBinary_iff (op : Nat) : isALUBinary op = true ↔
@@ -102,31 +102,25 @@ theorem jumpTestToOp_some (t c : Nat) (f : Bool) (h : jumpTestToOp t = some (c, 
   all_goals simp_all
 
 /-- L2: a canonical typed value survives `Disassemble ∘ Assemble`. -/
-theorem disasm_asm_of_canon (i : Instr) (r : Raw) (hi : i.WF) (hc : canonTyped i = true)
-    (h : asm i = some r) : disasm r = i := by
+theorem disasm_asm_of_canon (i : Instr) (r : Raw) (hi : i.WF) (hnr : isRaw i = false)
+    (hc : canonTyped i = true) (h : asm i = some r) : disasmCore r = i := by
   cases i with
-  | raw r' =>
-    simp only [asm, Option.some.injEq] at h; subst h
-    have hg := good_disasm r' hi
-    simp only [canonTyped] at hc
-    generalize hd : disasm r' = d at hg hc
-    cases d <;> simp [isRaw] at hc
-    simp only [good] at hg; rw [hg]
+  | raw r' => simp [isRaw] at hnr
   | aluOpConstant op val =>
     simp only [asm, Option.some.injEq] at h; subst h
     simp only [canonTyped, isALUBinary_iff] at hc
     rcases hc with h | h | h | h | h | h | h | h | h | h <;> subst h <;>
-      simp [disasm, disasmALU, isALUBinary]
+      simp [disasmCore, disasmALU, isALUBinary]
   | aluOpX op =>
     simp only [asm, Option.some.injEq] at h; subst h
     simp only [canonTyped, isALUBinary_iff] at hc
     rcases hc with h | h | h | h | h | h | h | h | h | h <;> subst h <;>
-      simp [disasm, disasmALU, isALUBinary]
+      simp [disasmCore, disasmALU, isALUBinary]
   | loadConstant dst val =>
     simp only [asm, assembleLoad] at h
     split at h <;> simp at h
     subst h
-    rcases ‹dst = regA ∨ dst = regX› with hd | hd <;> subst hd <;> simp [disasm, disasmLoad]
+    rcases ‹dst = regA ∨ dst = regX› with hd | hd <;> subst hd <;> simp [disasmCore, disasmLoad]
   | loadScratch dst n =>
     simp only [asm, assembleLoad, u32OfInt] at h
     repeat' split at h
@@ -134,41 +128,45 @@ theorem disasm_asm_of_canon (i : Instr) (r : Raw) (hi : i.WF) (hc : canonTyped i
     all_goals (try (exfalso; omega))
     all_goals subst h
     all_goals have : ((n % 4294967296).toNat : Int) = n := by omega
-    all_goals rcases ‹dst = regA ∨ dst = regX› with hd | hd <;> subst hd <;> simp [disasm, disasmLoad, this] at * <;> omega
+    all_goals rcases ‹dst = regA ∨ dst = regX› with hd | hd <;> subst hd <;> simp [disasmCore, disasmLoad, this] at * <;> omega
   | loadAbsolute off size =>
     simp only [asm, assembleLoad] at h
     simp only [canonTyped, decide_eq_true_eq] at hc
     repeat' split at h
     all_goals simp at h
     all_goals subst h
-    all_goals simp [disasm, disasmLoad, *] at *
+    all_goals simp [disasmCore, disasmLoad, *] at *
     all_goals omega
   | loadIndirect off size =>
     simp only [asm, assembleLoad] at h
     repeat' split at h
     all_goals simp at h
     all_goals subst h
-    all_goals simp [disasm, disasmLoad, *] at *
+    all_goals simp [disasmCore, disasmLoad, *] at *
   | loadMemShift off =>
-    simp [asm, assembleLoad] at h; subst h; simp [disasm, disasmLoad]
+    simp [asm, assembleLoad] at h; subst h; simp [disasmCore, disasmLoad]
   | loadExtension num =>
-    simp [canonTyped] at hc
+    simp only [asm] at h
+    split at h
+    · simp at h
+    rename_i hc
+    simp at hc
     by_cases h1 : num = 1
-    · subst h1; simp [asm, assembleLoad] at h; subst h; simp [disasm, disasmLoad]
+    · subst h1; simp [assembleLoad] at h; subst h; simp [disasmCore, disasmLoad]
     · have e : u32OfInt (extOffset + num) = (4294963200 + num).toNat := by simp [u32OfInt]; omega
-      simp [asm, assembleLoad, h1, e] at h; subst h
+      simp [assembleLoad, h1, e] at h; subst h
       have h2 : 4294963199 < (4294963200 + num).toNat := by omega
-      simp [disasm, disasmLoad, h2]; omega
+      simp [disasmCore, disasmLoad, h2]; omega
   | storeScratch src n =>
     simp only [asm, u32OfInt] at h
     repeat' split at h
     all_goals simp at h
     all_goals subst h
     all_goals have : ((n % 4294967296).toNat : Int) = n := by omega
-    all_goals simp [disasm, disasmStore, *] at *
+    all_goals simp [disasmCore, disasmStore, *] at *
     all_goals omega
-  | negateA => simp [asm] at h; subst h; simp [disasm, disasmALU, isALUBinary]
-  | jump skip => simp [asm] at h; subst h; simp [disasm, disasmJump]
+  | negateA => simp [asm] at h; subst h; simp [disasmCore, disasmALU, isALUBinary]
+  | jump skip => simp [asm] at h; subst h; simp [disasmCore, disasmJump]
   | jumpIf cond val st sf =>
     simp only [asm, jumpToRaw] at h
     split at h
@@ -178,7 +176,7 @@ theorem disasm_asm_of_canon (i : Instr) (r : Raw) (hi : i.WF) (hc : canonTyped i
     simp only [canonTyped, canonJump] at hc
     rcases h8 with ⟨h1, h2, h3⟩ | ⟨h1, h2, h3⟩ | ⟨h1, h2, h3⟩ | ⟨h1, h2, h3⟩ | ⟨h1, h2, h3⟩ | ⟨h1, h2, h3⟩ |
       ⟨h1, h2, h3⟩ | ⟨h1, h2, h3⟩ <;> subst h1 h2 h3 <;> simp at h hc <;> subst h <;>
-      simp [disasm, disasmJump, jumpOpToTest, hc]
+      simp [disasmCore, disasmJump, jumpOpToTest, hc]
   | jumpIfX cond st sf =>
     simp only [asm, jumpToRaw] at h
     split at h
@@ -188,11 +186,11 @@ theorem disasm_asm_of_canon (i : Instr) (r : Raw) (hi : i.WF) (hc : canonTyped i
     simp only [canonTyped, canonJump] at hc
     rcases h8 with ⟨h1, h2, h3⟩ | ⟨h1, h2, h3⟩ | ⟨h1, h2, h3⟩ | ⟨h1, h2, h3⟩ | ⟨h1, h2, h3⟩ | ⟨h1, h2, h3⟩ |
       ⟨h1, h2, h3⟩ | ⟨h1, h2, h3⟩ <;> subst h1 h2 h3 <;> simp at h hc <;> subst h <;>
-      simp [disasm, disasmJump, jumpOpToTest, hc]
-  | retA => simp [asm] at h; subst h; simp [disasm, disasmRet]
-  | retConstant val => simp [asm] at h; subst h; simp [disasm, disasmRet]
-  | txa => simp [asm] at h; subst h; simp [disasm, disasmMisc]
-  | tax => simp [asm] at h; subst h; simp [disasm, disasmMisc]
+      simp [disasmCore, disasmJump, jumpOpToTest, hc]
+  | retA => simp [asm] at h; subst h; simp [disasmCore, disasmRet]
+  | retConstant val => simp [asm] at h; subst h; simp [disasmCore, disasmRet]
+  | txa => simp [asm] at h; subst h; simp [disasmCore, disasmMisc]
+  | tax => simp [asm] at h; subst h; simp [disasmCore, disasmMisc]
 
 /-! L4: canonical raw instructions reassemble to themselves -/
 
@@ -281,10 +279,10 @@ theorem back_misc (r : Raw) (i : Instr) (hi : disasmMisc r = i) (hc : canonRawFo
   all_goals omega
 
 /-- L4: a canonical raw instruction survives `Assemble ∘ Disassemble`. -/
-theorem asm_disasm_of_canon (r : Raw) (hr : r.WF) (hc : canonRaw r = true) : asm (disasm r) = some r := by
+theorem asm_disasm_of_canon (r : Raw) (hr : r.WF) (hc : canonRaw r = true) : asm (disasmCore r) = some r := by
   unfold canonRaw at hc
-  generalize hi : disasm r = i at hc
-  simp only [disasm, and_maskCls] at hi
+  generalize hi : disasmCore r = i at hc
+  simp only [disasmCore, and_maskCls] at hi
   repeat' split at hi
   · exact back_load r hr (by assumption) i hi hc
   · exact back_store r hr _ _ (by simp) i hi hc
@@ -295,9 +293,9 @@ theorem asm_disasm_of_canon (r : Raw) (hr : r.WF) (hc : canonRaw r = true) : asm
   · exact back_misc r i hi hc
 
 /-- L3: the encoding of a canonical typed value is a canonical raw instruction. -/
-theorem canonRaw_asm (i : Instr) (r : Raw) (hi : i.WF) (hc : canonTyped i = true) (h : asm i = some r) :
-    canonRaw r = true := by
-  have hd := disasm_asm_of_canon i r hi hc h
+theorem canonRaw_asm (i : Instr) (r : Raw) (hi : i.WF) (hnr : isRaw i = false) (hc : canonTyped i = true)
+    (h : asm i = some r) : canonRaw r = true := by
+  have hd := disasm_asm_of_canon i r hi hnr hc h
   unfold canonRaw; rw [hd]
   cases i with
   | raw r' => simp [canonRawFor]
@@ -326,11 +324,15 @@ theorem canonRaw_asm (i : Instr) (r : Raw) (hi : i.WF) (hc : canonTyped i = true
     rcases h8 with ⟨h1, h2, h3⟩ | ⟨h1, h2, h3⟩ | ⟨h1, h2, h3⟩ | ⟨h1, h2, h3⟩ | ⟨h1, h2, h3⟩ | ⟨h1, h2, h3⟩ |
       ⟨h1, h2, h3⟩ | ⟨h1, h2, h3⟩ <;> subst h1 h2 h3 <;> simp at h <;> subst h <;> simp [canonRawFor]
   | loadExtension num =>
-    simp [canonTyped] at hc
+    simp only [asm] at h
+    split at h
+    · simp at h
+    rename_i hc
+    simp at hc
     by_cases h1 : num = 1
-    · subst h1; simp [asm, assembleLoad] at h; subst h; simp [canonRawFor]
+    · subst h1; simp [assembleLoad] at h; subst h; simp [canonRawFor]
     · have e : u32OfInt (extOffset + num) = (4294963200 + num).toNat := by simp [u32OfInt]; omega
-      simp [asm, assembleLoad, h1, e] at h; subst h
+      simp [assembleLoad, h1, e] at h; subst h
       simp [canonRawFor]; omega
   | _ =>
     simp only [asm, assembleLoad, u32OfInt] at h
@@ -350,14 +352,57 @@ theorem jumpOpToTest_wf (op jt jf : Nat) (h1 : jt < 256) (h2 : jf < 256) :
   all_goals simp
   all_goals omega
 
-theorem disasm_wf (r : Raw) (hr : r.WF) : (disasm r).WF := by
+theorem disasmCore_wf (r : Raw) (hr : r.WF) : (disasmCore r).WF := by
   obtain ⟨op, jt, jf, k⟩ := r
   have hj := jumpOpToTest_wf (op / 16 % 16 * 16) jt jf hr.2.1 hr.2.2.1
   have hr' := hr
   simp only [Raw.WF] at hr
-  simp only [disasm, disasmLoad, disasmStore, disasmALU, disasmJump, disasmRet, disasmMisc]
+  simp only [disasmCore, disasmLoad, disasmStore, disasmALU, disasmJump, disasmRet, disasmMisc]
   repeat' split
   all_goals simp only [Instr.WF, int64WF, and_maskLoadDest, and_maskOperator]
   all_goals (first | exact hr' | exact hj | exact ⟨hj.1, hr.2.2.2, hj.2⟩ | (simp at *; omega) | omega | simp)
+
+
+/-! ### the exported `Disassemble` (decode, then keep the decoding only if it reassembles to `r`) -/
+
+theorem disasm_cases (r : Raw) :
+    (disasm r = disasmCore r ∧ (isRaw (disasmCore r) = true ∨ asm (disasmCore r) = some r)) ∨
+    (disasm r = .raw r ∧ isRaw (disasmCore r) = false ∧ asm (disasmCore r) ≠ some r) := by
+  unfold disasm
+  by_cases h1 : isRaw (disasmCore r) = true
+  · simp [h1]
+  · by_cases h2 : asm (disasmCore r) = some r
+    · simp [h1, h2]
+    · right; simp [h1, h2]
+
+/-- A `RawInstruction` in the output of `Disassemble` is always the input itself. -/
+theorem disasm_raw_eq (r r' : Raw) (hr : r.WF) (h : disasm r = .raw r') : r' = r := by
+  rcases disasm_cases r with ⟨h1, _⟩ | ⟨h1, _⟩
+  · have hg := good_disasm r hr
+    rw [← h1, h] at hg
+    simpa [good] using hg
+  · rw [h1] at h; cases h; rfl
+
+theorem disasm_wf (r : Raw) (hr : r.WF) : (disasm r).WF := by
+  rcases disasm_cases r with ⟨h1, _⟩ | ⟨h1, _⟩ <;> rw [h1]
+  · exact disasmCore_wf r hr
+  · exact hr
+
+/-- `Disassemble` keeps the decoding exactly for the canonical raw instructions. -/
+theorem disasm_eq_core_iff (r : Raw) (hr : r.WF) : disasm r = disasmCore r ↔ canonRaw r = true := by
+  constructor
+  · intro h
+    by_cases h1 : isRaw (disasmCore r) = true
+    · unfold canonRaw
+      cases hc : disasmCore r <;> simp [hc, isRaw] at h1
+      simp [canonRawFor]
+    · rcases disasm_cases r with ⟨_, h2 | h2⟩ | ⟨h2, _⟩
+      · exact absurd h2 h1
+      · exact canonRaw_asm _ r (disasmCore_wf r hr) (by simpa using h1) (canonTyped_disasm r hr) h2
+      · rw [h2] at h; rw [← h] at h1; simp [isRaw] at h1
+  · intro hc
+    have := asm_disasm_of_canon r hr hc
+    unfold disasm
+    by_cases h1 : isRaw (disasmCore r) = true <;> simp [h1, this]
 
 end NetVerif.Proofs.Lemmas.BpfRoundTrip
